@@ -26,8 +26,8 @@ def run_check(tier, seed, replay=None):
         elif kind == "header":
             c.note("header deviates from Params.tla on %s (C08's business)" % x["reset"].get("label"))
         else:
-            raise ToolError("Trace_Stream and the implementation disagree on the operation grammar (%s) at %s; "
-                            "the specification needs attention" % (kind, json.dumps(ev)[:300]))
+            c.defer_tool_error("Trace_Stream and the implementation disagree on the operation grammar (%s) at %s; "
+                               "the specification needs attention" % (kind, json.dumps(ev)[:300]))
     for r in res[:2]:
         c.sample({"generated_stream": {k: r.get(k) for k in ("id", "lib", "len", "plain_len", "feat")}})
     for r in dres[:3]:
